@@ -854,7 +854,7 @@ impl Check for C20 {
     }
     fn assumptions(&self) -> Vec<String> {
         vec![
-            "agreement between hand-built IR, the derive/service macros and the code generator for the same schema is exercised on generated code by C16's corpus (ids are printed and compared there); this check covers the function TypeId::compute itself".into(),
+            "the compiled-code half (generator output vs generate! macro vs hand-written derives with implicit and explicit ids) runs through C16's corpus crate in `once`; agreement of those with hand-built IR for the same schema is not checked (no schema-to-IR translator)".into(),
             "'equal iff' is sampled: the only-if direction over single edits, the if direction over the four neutral transformations".into(),
         ]
     }
@@ -943,9 +943,28 @@ impl Check for C20 {
             out.sample(json!({"case": idx, "nodes": g.nodes.len(), "graph": format!("{:?}", g.nodes).chars().take(700).collect::<String>()}));
         }
     }
+    /// The compiled-code half: type ids computed by code from the code generator, from the
+    /// generate! macro and from hand-written derives (implicit vs explicit ids) must agree.
+    /// Uses C16's corpus crate; only the type-id verdicts are taken from it.
+    fn once(&self, ctx: &Ctx, out: &mut Outcome) {
+        let mut tmp = Outcome::default();
+        super::c16::C16.batch(ctx, &mut tmp, 1000, 8);
+        out.count("compiled_type_ids_compared", tmp.counters.get("type_ids_compared").copied().unwrap_or(0));
+        out.count("handwritten_derive_observations", tmp.counters.get("handwritten_derive_observations").copied().unwrap_or(0));
+        for v in tmp.violations {
+            if v.signature.starts_with("derive-implicit-ids") || v.signature.starts_with("type-id-generator-vs-macro") {
+                out.violation(v.signature, v.detail, v.replay);
+            } else {
+                out.count("corpus_findings_owned_by_C16", 1);
+            }
+        }
+        for i in tmp.inconclusive {
+            out.inconclusive(format!("compiled-code half: {}", i));
+        }
+    }
     fn gates(&self, _tier: Tier, merged: &Outcome) -> Vec<String> {
         let mut g = Vec::new();
-        for k in ["recursive_layouts", "records_roundtripped"] {
+        for k in ["recursive_layouts", "records_roundtripped", "compiled_type_ids_compared", "handwritten_derive_observations"] {
             if merged.counters.get(k).copied().unwrap_or(0) == 0 {
                 g.push(format!("{} never happened", k));
             }
